@@ -1346,7 +1346,7 @@ impl Model {
             Op::MoveP { s, d } => self.move_p(s, d),
             // when a builder resolves its paths is not documented: anything goes for the model,
             // the wrapper must still do exactly what the wrapped backend does (C13)
-            Op::CopyBDeferred { .. } => vec![alt(Expect::Any, Next::Resync(vec!["/".into()]))],
+            Op::CopyBDeferred { .. } | Op::ChmodBDeferred { .. } | Op::ChownBDeferred { .. } => vec![alt(Expect::Any, Next::Resync(vec!["/".into()]))],
             Op::Paths { p } => self.listing(p, false, None),
             Op::Dirs { p } => self.listing(p, false, Some(Kind::Dir)),
             Op::Files { p } => self.listing(p, false, Some(Kind::File)),
